@@ -106,6 +106,10 @@ func readCSVToUDLChan(in io.Reader, cudL chan updownLine, cErr chan error, cRead
 			snps = strings.Split(record[1], "|")
 			snpPos = make([]int, len(snps))
 			for i, snp := range snps {
+				if len(snp) < 3 {
+					cErr <- errors.New("error parsing SNP from file: " + snp)
+					return
+				}
 				snpPos[i], err = strconv.Atoi(snp[1 : len(snp)-1])
 				if err != nil {
 					cErr <- err
@@ -178,6 +182,9 @@ func readCSVToUDLList(in io.Reader) ([]updownLine, error) {
 			snps = strings.Split(record[1], "|")
 			snpPos = make([]int, len(snps))
 			for i, snp := range snps {
+				if len(snp) < 3 {
+					return make([]updownLine, 0), errors.New("error parsing SNP from file: " + snp)
+				}
 				snpPos[i], err = strconv.Atoi(snp[1 : len(snp)-1])
 				if err != nil {
 					return make([]updownLine, 0), err
